@@ -22,6 +22,9 @@ type c03Case struct {
 	Stmts      []model.Stmt `json:"stmts"`
 	VictimPick []int        `json:"victim_pick"` // which eligible statements are victims (indexes modulo)
 	After      []c03After   `json:"after"`       // follow-up work on every recovered image
+	// RestartBefore[i] = "shutdown" | "crash": the process is restarted (start-up
+	// recovery included) right before statement i
+	RestartBefore map[int]string `json:"restart_before,omitempty"`
 }
 
 // c03After is a follow-up statement template that is valid in every prefix
@@ -58,6 +61,25 @@ func c03Gen(rt *rapid.T) c03Case {
 		cfg.MinStmts = 6
 	}
 	c := c03Case{Stmts: append(pre, gen.History(rt, cfg, db)...)}
+	if rapid.IntRange(0, 5).Draw(rt, "restartprofile") == 0 {
+		// a burst of CREATE TABLEs (they consume log sequence numbers without logging),
+		// a restart, then a root move and further statements - the victims' images then
+		// hold records written by a process whose counters were rebuilt by recovery
+		for k := rapid.IntRange(2, 5).Draw(rt, "burst_creates"); k > 0; k-- {
+			cr := gen.CreateStmt(rt, 3, db)
+			gen.MustApply(db, cr)
+			c.Stmts = append(c.Stmts, cr)
+		}
+		c.RestartBefore = map[int]string{len(c.Stmts): rapid.SampledFrom([]string{"shutdown", "crash"}).Draw(rt, "restartkind")}
+		names := db.TableNames()
+		t := db.Tables[names[rapid.IntRange(0, len(names)-1).Draw(rt, "burst_tbl")]]
+		ins := gen.TextInsert(rt, t, rapid.SampledFrom([]int{8, 9, 10, 17}).Draw(rt, "burst_rows"), true)
+		gen.MustApply(db, ins)
+		c.Stmts = append(c.Stmts, ins)
+		tail := cfg
+		tail.MinStmts, tail.MaxStmts = 2, 6
+		c.Stmts = append(c.Stmts, gen.History(rt, tail, db)...)
+	}
 	c.VictimPick = rapid.SliceOfN(rapid.IntRange(0, 1000), 1, 3).Draw(rt, "victims")
 	n := rapid.IntRange(1, 3).Draw(rt, "nafter")
 	for i := 0; i < n; i++ {
@@ -119,7 +141,7 @@ func c03Run(c c03Case, st *vlib.Stats) string {
 	if err != nil {
 		return "setup failed: " + err.Error()
 	}
-	defer eng.Crash(true)
+	defer func() { eng.Crash(true) }()
 	m := model.NewDB()
 
 	// which statements are victims
@@ -156,6 +178,27 @@ func c03Run(c c03Case, st *vlib.Stats) string {
 	}
 	storage.VerifHook = baseHook
 	for i, s := range c.Stmts {
+		if how := c.RestartBefore[i]; how != "" {
+			if how == "crash" {
+				eng.Crash(true)
+			} else if err := eng.Shutdown(); err != nil {
+				return fmt.Sprintf("clean shutdown before statement %d failed: %v", i, err)
+			}
+			eng.Sess.RelationService = nil
+			e2, err := mk.Start(dir)
+			if err != nil {
+				return fmt.Sprintf("restart (%s) before statement %d failed: %v", how, i, err)
+			}
+			eng = e2
+			if err := eng.Exec("USE " + DBName); err != nil {
+				return "USE after restart failed: " + err.Error()
+			}
+			if msg := CompareAll(eng, m, nil); msg != "" {
+				return fmt.Sprintf("after the restart (%s) before statement %d: %s", how, i, msg)
+			}
+			lastSyncSize = walSize(dir) // only process deaths are modelled for what came before the restart
+			labels = append(labels, "restart-inside-history")
+		}
 		if !victims[i] {
 			if k, merr := m.Apply(s); merr != nil || k != model.OK {
 				return fmt.Sprintf("case is not valid in the model (statement %d: %v %v)", i, k, merr)
@@ -271,6 +314,24 @@ func c03Run(c c03Case, st *vlib.Stats) string {
 					}
 					if mm := CompareAll(e2, state, tr); mm != "" {
 						return fmt.Sprintf("after follow-up insert %d of %d rows (recovered prefix r=%d of %d): %s", k, a.Rows, r, nops, mm)
+					}
+				}
+				// ... in every table, not only the victim's
+				for _, name := range state.TableNames() {
+					if name == s.Table {
+						continue
+					}
+					ot := state.Tables[name]
+					as := model.Stmt{Kind: "insert", Table: name, Rows: [][]model.Val{make([]model.Val, len(ot.Cols))}}
+					for ci := range ot.Cols {
+						as.Rows[0][ci] = model.Null()
+					}
+					state.Apply(as)
+					if err := e2.ExecStmt(as); err != nil {
+						return fmt.Sprintf("follow-up insert into %s (recovered prefix r=%d of %d) was refused: %v", name, r, nops, err)
+					}
+					if mm := CompareTable(e2, ot, tr); mm != "" {
+						return fmt.Sprintf("after a follow-up insert into %s (recovered prefix r=%d of %d): %s", name, r, nops, mm)
 					}
 				}
 				return ""
